@@ -210,3 +210,34 @@ func init() {
 	vrt.Register(&vrt.Scenario{Name: "K-seq4", Props: []string{"C08"}, Quick: -1, Thorough: 0, Desc: "every sequence of 4 operations over the same alphabet",
 		Run: casterSeq(4), Check: casterSeqCheck})
 }
+
+// K-misuse: an unbalanced Add(-1) races a valid Add(1); once either reported a violation by a
+// panic, every later call must panic too (and none may hang).
+func casterMisuse() {
+	c := NewChanCaster(make(chan int))
+	var wg sync.WaitGroup
+	try := func(name string, f func()) {
+		defer func() {
+			if r := recover(); r != nil {
+				vrt.Log("panicked", name)
+			} else {
+				vrt.Log("returned", name)
+			}
+		}()
+		f()
+	}
+	wg.Add(2)
+	go func() { defer wg.Done(); try("add-1", func() { c.Add(-1) }) }()
+	go func() { defer wg.Done(); try("add+1", func() { c.Add(1) }) }()
+	wg.Wait()
+	vrt.Log("phase2")
+	try("send", func() { c.Send(7) })
+	try("add0", func() { c.Add(0) })
+	try("add+1 again", func() { c.Add(1) })
+}
+
+func init() {
+	vrt.Register(&vrt.Scenario{Name: "K-misuse", Props: []string{"C08", "C11:race"}, Quick: 3, Thorough: 5,
+		Desc: "an unbalanced Add(-1) racing a valid Add(1), then Send, Add(0), Add(1): after a reported violation every later call panics",
+		Run:  casterMisuse, Check: casterMisuseCheck})
+}
